@@ -1,8 +1,8 @@
 -- GENERATED from /repo by /verif/extract/extract.py on every run. Do not edit.
 namespace Rj.Generated
 /-- no read/write time-out and no non-blocking mode is set on any socket -/
-def linkSocketPlain : Bool := false
-def linkSocketOptions : List String := ["encrypted_comms.rs:set_read_timeout"]
+def linkSocketPlain : Bool := true
+def linkSocketOptions : List String := []
 /-- the durations (whole seconds) that occur in those files: candidates for a time-out to wait out when searching for a failing input -/
-def durationsSeen : List Nat := [0, 1]
+def durationsSeen : List Nat := [0]
 end Rj.Generated
